@@ -1,6 +1,6 @@
 (** C02 — a function never starts before everything it depends on has finished. *)
 From FG Require Import Dag Builder Sched DagFacts EdgeFacts RankFacts BuilderFacts TopoFacts AugFacts BuildFacts
-     SchedInv SafetyFacts CfgFacts StreamInv SI_Queuer SI_Step SI_Stream SafetyInv StreamFacts.
+     SchedInv SafetyFacts CfgFacts StreamInv SI_Queuer SI_Step SI_Stream SafetyInv StreamFacts Opts OptsFacts.
 
 (** Call APIs (all eight internal paths, control wrappers, every limit / strategy / include flag /
     set of immediately-resolving futures, every list of external events: completions, failures,
@@ -56,6 +56,37 @@ Proof.
   - apply (user_path_in_built _ _ _ _ _ _ Hok). exact Hp.
 Qed.
 Print Assumptions C02_stream.
+
+(** The order of a `*_with` call is decided by its `StreamOpts`, which the caller assembles with a
+    chain of builder calls (`rev()`, `interruptibility_state(..)`, `interrupted_next_item_include(..)`
+    in any order, any number of times: [Opts.opts_build]).  Whatever the chain: if it contains a
+    `rev()` the call runs in reverse order, otherwise forward -- "multiple calls to rev() are the same
+    as one", and no other setter undoes it. *)
+Theorem C02_order_for_any_setter_chain : forall ops G p q calls a mt ctl lim imm er evs i j,
+  build (builder_run ops) = BOk G p q ->
+  (if existsb is_rev calls then Path (edges (builder_run ops)) i j else Path (edges (builder_run ops)) j i) ->
+  j <> i ->
+  ended_before (trace (run (mk_cfg_opts G (opts_build calls) a mt ctl lim imm er) evs)) j i.
+Proof.
+  intros ops G p q calls a mt ctl lim imm er evs i j Hb Hp Hne.
+  unfold mk_cfg_opts. rewrite opts_rev_idempotent.
+  destruct (existsb is_rev calls).
+  - eapply C02_call_reverse; eassumption.
+  - eapply C02_call_forward; eassumption.
+Qed.
+Print Assumptions C02_order_for_any_setter_chain.
+
+Theorem C02_stream_order_for_any_setter_chain : forall ops G p q calls intr drain evs i j,
+  build (builder_run ops) = BOk G p q ->
+  (if existsb is_rev calls then Path (edges (builder_run ops)) i j else Path (edges (builder_run ops)) j i) ->
+  j <> i ->
+  ended_before (trace (srun (mk_scfg_opts G (opts_build calls) intr drain) evs)) j i.
+Proof.
+  intros ops G p q calls intr drain evs i j Hb Hp Hne.
+  unfold mk_scfg_opts. rewrite opts_rev_idempotent.
+  eapply C02_stream; eassumption.
+Qed.
+Print Assumptions C02_stream_order_for_any_setter_chain.
 
 (** Non-vacuity: chain 0 -> 1 -> 2, for_each_concurrent; 2 starts only after 0 and 1 ended. *)
 Example C02_example :
